@@ -8,7 +8,7 @@ from harness import core, tlc
 from harness.core import cps, uncps
 from . import codec_common as cc
 
-DIRS = ["system", "codec", "notedata", "beat", "convert"]
+DIRS = ["system", "codec", "notedata", "beat", "convert", "grouping"]
 EDIT_OPS = {"getattr", "setattr", "delattr", "setkey", "delkey", "appendchart", "removechart", "swapcharts",
             "setchartitem", "delchartitem", "setchartfield", "setchartextra", "create"}
 SAVE_OPS = {"save", "reopen", "load"}
@@ -168,7 +168,27 @@ def session(rid, seed, tosm_bias=False):
                 from . import c14
                 j = rng.randrange(len(sf.charts))
                 c = sf.charts[j]
-                if rng.random() < 0.5:
+                q = rng.random()
+                if q < 0.2:
+                    # a note stream written through NoteData.from_notes
+                    notes, cols = nc.gen_stream(rng, max_chars=200)
+                    t = str(NoteData.from_notes((nc.build_note(d) for d in notes), cols))
+                    c.notes = t.strip() if fmt == "sm" else t
+                    log("writenotes", sf, j=j + 1, notes=notes, cols=cols)
+                elif q < 0.4:
+                    txt = c.notes
+                    if txt is None or not isinstance(txt, str) or any(ch not in "0123456789AFKLM[],\r\n \t" for ch in txt) or not txt.strip():
+                        continue
+                    if "&" in txt:
+                        continue                      # (the counting rules of Grouping.tla are stated for single-player streams)
+                    from simfile.notes import count as cnt
+                    try:
+                        nd = NoteData(c)
+                        res = {"steps": cnt.count_steps(nd), "jumps": cnt.count_jumps(nd), "hands": cnt.count_hands(nd), "mines": cnt.count_mines(nd)}
+                    except Exception:  # noqa  (arbitrary text in a NOTES value is not note data)
+                        continue
+                    log("countnotes", sf, j=j + 1, res=res)
+                elif q < 0.7:
                     t = nc.gen_text(rng, max_chars=160)
                     if fmt == "sm":
                         t = t.strip()
